@@ -3,9 +3,47 @@
    Layers: F = documented format (Format.v), S = abstract spec (Spec/SpecStep), I = model of the Rust (World.step'). *)
 From Coq Require Import List NArith Bool Arith Sorted.
 From Coq Require Import Strings.Byte.
-Require Import BS.Bytes BS.Common BS.Api BS.Layout BS.Format BS.FormatFacts BS.Spec BS.SpecStep.
-Require Import BS.FS BS.FSFacts BS.Meta BS.MetaFacts BS.Header BS.Reader BS.ReaderFacts BS.Index BS.Data BS.DataFacts BS.Seek BS.Series BS.SeriesFacts.
+Require Import BS.Bytes BS.Common BS.Api BS.Layout BS.Format BS.FormatFacts BS.Spec BS.SpecStep BS.Sections.
+Require Import BS.FS BS.FSFacts BS.Meta BS.MetaFacts BS.Header BS.Reader BS.ReaderFacts BS.Index BS.Data BS.DataFacts BS.Seek BS.SeekFacts BS.Series BS.SeriesFacts BS.ReadAllFacts.
 Import ListNotations.
 
-(* theorems for this property are added as the development grows; until then the property is
-   decided by the judge (Layer S/F, extracted) on the implementation and by the correspondence check *)
+(* (I) creating over an existing series fails and leaves every file untouched *)
+Theorem C17_exists_untouched : forall fs name p hdr caches cb0,
+  fs_mem fs (name ++ ext_data) = true -> (len (params_to_text BSgen.Consts.version p ++ hdr) <= 65535)%N ->
+  series_new name p hdr caches cb0 fs = (fs, Err EExists).
+Proof. exact new_over_existing. Qed.
+Print Assumptions C17_exists_untouched.
+(* a header that does not fit the 16 bit length: error, nothing created (after the fix) *)
+Theorem C17_header_too_large_no_residue : forall fs name p hdr caches cb0,
+  (65535 < len (params_to_text BSgen.Consts.version p ++ hdr))%N ->
+  series_new name p hdr caches cb0 fs = (fs, Err EHeaderTooLarge).
+Proof. exact new_header_too_large. Qed.
+Print Assumptions C17_header_too_large_no_residue.
+(* a stale index file: error, and the data file that had been created is removed again (after the fix) *)
+Theorem C17_stale_index_no_residue : forall fs name p hdr cb0,
+  fs_mem fs (name ++ ext_data) = false -> fs_mem fs (name ++ ext_index) = true ->
+  (len (params_to_text BSgen.Consts.version p ++ hdr) <= 65535)%N ->
+  exists fs', series_new name p hdr [] cb0 fs = (fs', Err EExists) /\ forall g, fs_get fs' g = fs_get fs g.
+Proof. exact new_stale_index. Qed.
+Print Assumptions C17_stale_index_no_residue.
+(* opening a missing series fails and creates nothing *)
+Theorem C17_missing_creates_nothing : forall fs name popt hdr caches cb0,
+  fs_mem fs (name ++ ext_data) = false -> builder_open name popt hdr caches cb0 fs = (fs, Err ENotFound).
+Proof. exact builder_open_missing. Qed.
+Print Assumptions C17_missing_creates_nothing.
+(* a successful create stores header and payload size: the invariant RepH holds for the empty series with the
+   data file = outer header ++ (text preamble ++ user header) *)
+Theorem C17_create : forall fs name p hdr cb0,
+  fs_mem fs (name ++ ext_data) = false -> fs_mem fs (name ++ ext_index) = false ->
+  (len (params_to_text BSgen.Consts.version (N.of_nat p) ++ hdr) <= 65535)%N ->
+  let header := params_to_text BSgen.Consts.version (N.of_nat p) ++ hdr in
+  exists fs' s,
+    series_new name (N.of_nat p) hdr [] cb0 fs = (fs', Ok s)
+    /\ RepH fs' s p (le_enc 2 (len header) ++ BSgen.Consts.line_ends ++ header) (le_enc 2 0 ++ BSgen.Consts.line_ends) []
+    /\ s_cb s = cb0
+    /\ of_name (d_file (s_data s)) = name ++ ext_data /\ of_name (ix_file (d_index (s_data s))) = name ++ ext_index
+    /\ (forall g, g <> name ++ ext_data -> g <> name ++ ext_index -> fs_get fs' g = fs_get fs g).
+Proof. exact series_new_ok. Qed.
+Print Assumptions C17_create.
+(* partial: reopen returning the stored header / rejecting another one needs the header parse round trip and
+   the open theorem; known finding D13 (stale cache file: residue) is outside these statements (caches = []). *)
